@@ -2,6 +2,7 @@
 from vf.core import Gen
 
 META = dict(
+    technique='solver-based bounded symbolic execution of the real code (CrossHair + z3), counterexample replay; the DEBUG-logging condition runs its solver-chosen inputs outside the tracer (log records carry time.time())',
     functions_encoded=["pydra.engine.job.Job._check_for_hash_changes", "pydra.compose.base.task.Task._hash_changes / _compute_hashes",
                        "Job.run", "Job.checksum (cached)", "pydra.engine.result.save", "pydra.compose.python.PythonTask._run"],
     stubs=["vf/engine.py (untraced hash_function is the real one on concrete values)"],
